@@ -2,16 +2,17 @@
    checks/c11.py; the guards term_lit_ok and cond_depth are defined beside their lemmas in proofs/TraceqlEvalProofs.v).  Executable definitions only. *)
 From Coq Require Import List ZArith QArith String Ascii Bool.
 From Qryn Require Import model.TqSql model.Traceql model.TraceqlPlan model.TraceqlSem model.TraceqlCase proofs.TraceqlEvalProofs
-     proofs.TraceqlIndexSearchProofs proofs.TraceqlChainProofs proofs.TraceqlChainPlan.
+     proofs.TraceqlIndexSearchProofs proofs.TraceqlChainProofs proofs.TraceqlChainPlan model.TraceqlKey proofs.TraceqlKeyCorrect.
 Import ListNotations.
-(* is the case inside the hypotheses of traceql_correct_single (1) / traceql_correct_agg (2)?  0 = outside *)
+(* is the case inside the hypotheses of traceql_correct_single_grammar (1) / traceql_correct_agg_grammar (2)?  0 = outside.
+   Round 6: the guard is terms_grammar (from which keys_ok is proved), no longer keys_ok itself. *)
 Definition theorem_scope (cs : case) : Z :=
   match c_mode cs, c_q cs with
   | MSearch, Script h _ None =>
       match sel_attr h with
       | Some e =>
           let a := analyze_cond e ([], []) in
-          if keys_ok e && forallb term_lit_ok (fst (snd a)) && Nat.leb (List.length (fst (snd a))) 64
+          if terms_grammar e && forallb term_lit_ok (fst (snd a)) && Nat.leb (List.length (fst (snd a))) 64
              && Nat.leb (cond_depth (fst a)) 28 && lits_exact e && Z.eqb (rf_max (c_ctx cs)) 0 && Z.leb 0 (limit (c_ctx cs))
           then match sel_agg h with
                | None => 1%Z
@@ -25,10 +26,10 @@ Definition theorem_scope (cs : case) : Z :=
 Definition scope_counts (l : list case) : Z * Z :=
   (Z.of_nat (List.length (filter (fun cs => Z.eqb (theorem_scope cs) 1) l)), Z.of_nat (List.length (filter (fun cs => Z.eqb (theorem_scope cs) 2) l))).
 
-(* is the case inside the hypotheses of traceql_correct_chain (a chain of at least two selectors; chain_ok_b_sound: the boolean implies chain_ok) *)
+(* is the case inside the hypotheses of traceql_correct_chain_grammar (a chain of at least two selectors; chain_ok_gb_sound: the boolean implies chain_ok_g) *)
 Definition chain_scope (cs : case) : bool :=
   match c_mode cs, sc_tail (c_q cs) with
-  | MSearch, Some _ => chain_ok_b (c_q cs) && Z.eqb (rf_max (c_ctx cs)) 0 && Nat.leb (chain_need (c_q cs)) 13
+  | MSearch, Some _ => chain_ok_gb (c_q cs) && Z.eqb (rf_max (c_ctx cs)) 0 && Nat.leb (chain_need (c_q cs)) 13
   | _, _ => false
   end.
 Definition chain_count (l : list case) : Z := Z.of_nat (List.length (filter chain_scope l)).
